@@ -53,6 +53,8 @@ Fixpoint catch_free (p : prog) : bool :=
   | PCatch _ _ _ => false
   | _ => true
   end.
+(* every scope has exited *)
+Definition no_active_scope (st : state) : bool := forallb (fun s => negb (s_host s)) (scopes st).
 (* cancel() was never called on any scope during the run *)
 Definition never_called (st : state) : bool := forallb (fun s => negb (s_called s)) (scopes st).
 
